@@ -88,7 +88,7 @@ func VC05_corrupt() {
 	switch vrt.Choose(3) {
 	case 0: // keep
 	case 1:
-		lim := []uint32{20000, 0xffffffff, 0, 1, tableEnd, 16384, 16385, 40000}[vrt.Choose(vrt.Param("limits", 3))]
+		lim := []uint32{20000, 0xffffff00, 0, 0xffffffff, 1, tableEnd, 16384, 16385, 40000}[vrt.Choose(vrt.Param("limits", 3))]
 		c5wr32(d, hdrLen, lim)
 		lowLimit = lim < dOff+32
 	case 2:
